@@ -177,13 +177,51 @@ def check_circuit(params):
     return out
 
 
+def check_batch(params):
+    """Several circuits evaluated / counted in one call: every answer is the answer the circuit
+    gets on its own (which the other cases compare with the reference)."""
+    cs = [build.build(norm(r)) for r in params["recipes"]]
+    out = []
+
+    def arr(v):
+        return type(v).__name__, np.asarray(getattr(v, "array", v), dtype=complex)
+    for label, batch, single in (
+            ("eval", lambda: cs[0].eval(*cs[1:]), lambda c: c.eval()),
+            ("eval(mixed=True)", lambda: cs[0].eval(*cs[1:], mixed=True), lambda c: c.eval(mixed=True)),
+            ("get_counts", lambda: cs[0].get_counts(*cs[1:]), lambda c: c.get_counts())):
+        try:
+            alone = [single(c) for c in cs]
+        except Exception:
+            continue        # not defined for one of the circuits on its own: nothing to compare
+        try:
+            together = batch()
+        except Exception as e:  # noqa
+            out.append((_sig("batch-raises", [params, label]), "%s on the batch %s raised %s: %s, every circuit alone is fine"
+                        % (label, cs, type(e).__name__, str(e)[:100])))
+            continue
+        if not isinstance(together, list) or len(together) != len(cs):
+            out.append((_sig("batch-shape", [params, label]), "%s on the batch %s returned %r" % (label, cs, together)))
+            continue
+        for i, (a, b) in enumerate(zip(alone, together)):
+            if label == "get_counts":
+                same = set(a) == set(b) and all(abs(a[k_] - b[k_]) < 1e-9 for k_ in a)
+            else:
+                (ta, va), (tb, vb) = arr(a), arr(b)
+                same = ta == tb and va.shape == vb.shape and qref.close(va, vb)
+            if not same:
+                out.append((_sig("batch-value", [params, label]), "%s on the batch %s: circuit #%d = %s gets %s, alone it gets %s"
+                            % (label, [str(c) for c in cs], i, cs[i], str(b)[:120], str(a)[:120])))
+                break
+    return out
+
+
 def norm(r):
     def t(x):
         return tuple(t(y) for y in x) if isinstance(x, (list, tuple)) else x
     return t(r)
 
 
-CASES = {k: safe("C12", f) for k, f in {"circuit": check_circuit}.items()}
+CASES = {k: safe("C12", f) for k, f in {"circuit": check_circuit, "batch": check_batch}.items()}
 
 
 def _worker(shard):
@@ -196,10 +234,10 @@ def _worker(shard):
             part.count("pure_vs_mixed_checked")
         if params.pop("_tp", False):
             part.count("trace_preserving_checked")
-        part.seen("nontrivial", repr(params["recipe"]))
+        part.seen("nontrivial", repr(params.get("recipe", params.get("recipes"))))
         for s_, msg in res:
             part.violation(s_, msg, case, params)
-        if len(part.samples) < 1 and params["recipe"][0] != "zoo" and len(params["recipe"][2]) == 2:
+        if case == "circuit" and len(part.samples) < 1 and params["recipe"][0] != "zoo" and len(params["recipe"][2]) == 2:
             part.sample(params)
     return part
 
@@ -250,6 +288,17 @@ def run(ctx):
         items.append(("circuit", dict(recipe=("zoo", "circuit", e))))
         nz += 1
     ctx.note("zoo", "%d zoo entries" % nz)
+    # batches: every ordered pair and triple of a menu of small circuits of every kind (pure,
+    # mixed by a box, mixed only because bits and qubits coexist, classical, scalars)
+    Z = lambda e: ("zoo", "circuit", e)  # noqa
+    menu = [Z("H"), Z("Ket(0) >> H"), Z("Rx(0.3) >> Measure()"), Z("Ket(1) >> Discard()"), Z("H @ Bits(1)"),
+            Z("Bits(1, 0) >> Match()"), Z("scalar(0.5j) @ Ket(1)"), Z("Ket(0) >> Rx(0.4) >> Bra(0)"),
+            Z("Ket(0) @ Bits(1) >> Rx(0.35) @ Id(bit)"), Z("Ket(0) >> Ry(0.2) >> Measure(destructive=False)")]
+    for a in menu:
+        for b in menu:
+            items.append(("batch", dict(recipes=[a, b])))
+    for tr in itertools.permutations(menu[:6], 3):
+        items.append(("batch", dict(recipes=list(tr))))
     for p in pmap(_worker, build.shards(items, 128)):
         ctx.merge(p)
     ctx.counters["traces_validated_against_impl"] = ctx.counters.get("transitions", 0)
